@@ -82,6 +82,9 @@ def norm_ss(call):
 
 
 def make_oracle(numeric, mono, decreasing, bound_numeric=True):
+    """Scenario oracle.  `mono`: the labels are monotonic (None: not stated); `decreasing`: True for strictly decreasing labels (at least two),
+    False for increasing ones, 'equal' for an axis whose first and last label are the same (a single label: non-decreasing and non-increasing
+    at once), None: not stated.  All the predicates the code may consult about the direction are answered from the same scenario."""
     def oracle(atom, st):
         if atom[0] == 'call':
             n = T.call_name(atom)
@@ -93,14 +96,21 @@ def make_oracle(numeric, mono, decreasing, bound_numeric=True):
                     return bound_numeric
             if n in ('is_monotonic_equal',) and len(atom[2]) == 1 and atom[2][0] == VALUES:
                 return mono
-        if atom[0] == 'cmp' and atom[1] == '<':
+            if n in ('is_increasing_equal', 'is_decreasing_equal') and len(atom[2]) == 1 and atom[2][0] == VALUES and mono is not None:
+                if not mono:
+                    return False
+                if decreasing == 'equal':
+                    return True
+                if decreasing is not None:
+                    return decreasing == (n == 'is_decreasing_equal')
+        if atom[0] == 'cmp' and atom[1] in ('<', '<='):
             last, first = ('sub', VALUES, const(-1)), ('sub', VALUES, const(0))
             if decreasing == 'equal':
                 if (atom[2], atom[3]) in ((last, first), (first, last)):
-                    return False       # single label / equal ends: neither strictly ordered
-            elif (atom[2], atom[3]) == (last, first):
+                    return atom[1] == '<='       # single label / equal ends: neither strictly ordered
+            elif (atom[2], atom[3]) == (last, first) and (atom[1] == '<' or mono):
                 return decreasing      # values[-1] < values[0]
-            elif (atom[2], atom[3]) == (first, last):
+            elif (atom[2], atom[3]) == (first, last) and (atom[1] == '<' or mono):
                 return (not decreasing) if decreasing is not None else None
         return None
     return oracle
@@ -221,6 +231,23 @@ def check_bound(ctx, fi, scen, which, path, value):
     return ok
 
 
+def _size_feasible(path, nmin, nmax=7):
+    """some number of labels n >= nmin agrees with every size test on the path"""
+    sizes = set()
+    for a, _ in path.guards:
+        sizes.update(size_atoms(a))
+    for n in range(nmin, nmax):
+        atoms = {z: n for z in sizes}
+        for a, pol in path.guards:
+            if size_atoms(a) and not any(True for c in T.calls_in(a, 'searchsorted')):
+                r = bool_eval(a, atoms)
+                if r is not None and r != pol:
+                    break
+        else:
+            return True
+    return False
+
+
 def rule_tables(ctx, fi):
     ctx.rule('R2', 'searchsorted side table and integer arithmetic (12 entries + open bounds)', 12)
     ctx.rule('R3', 'no wrap-around: a bound of -1 becomes open/empty', 4)
@@ -242,6 +269,8 @@ def rule_tables(ctx, fi):
         for p in rets:
             v = p.value
             if not (v[0] == 'tuple' and len(v[1]) == 2):
+                if dec and not _size_feasible(p, 2):
+                    continue       # this path needs an axis of fewer than two labels: not a decreasing axis
                 ctx.undecide('R2', 'locate_slice does not return a pair: %s' % T.show(v))
                 good = False
                 continue
